@@ -1078,6 +1078,8 @@ class World:
 
         def send(fo, self_val, args, kw):
             m = args[0] if args else kw.get('message')
+            if isinstance(m, EV) and m.cls.enum_kind == 'StrEnum' and isinstance(m.value, str):
+                m = m.value        # a StrEnum member IS its text: the bytes on the wire are those of the value
             end_of(self_val.fields.get('connection_socket')).send_msg(m)
 
         def recv(fo, self_val, args, kw):
